@@ -143,6 +143,19 @@ def _gcp_pixels(pts: dict, ny: int, nx: int) -> np.ndarray:
     return np.asarray(out, dtype="float64")
 
 
+def _gcp_points(bc: dict) -> Tuple[np.ndarray, np.ndarray]:
+    """Control points (pixel, world) of a GCP case: the base affine plus a small bilinear distortion."""
+    ny, nx = bc["shape"]
+    A = mk_affine(bc["affine"])
+    pix = _gcp_pixels(bc["pts"], ny, nx)
+    px, py = pix[:, 0], pix[:, 1]
+    s = max(abs(A.a), abs(A.b), abs(A.d), abs(A.e))
+    u, v = px / nx, py / ny
+    wx = A.a * px + A.b * py + A.c + s * nx * bc["q"][0] * u * v
+    wy = A.d * px + A.e * py + A.f + s * ny * bc["q"][1] * u * v
+    return pix, np.stack([wx, wy], axis=1)
+
+
 def mk_box(bc: dict):
     """-> (box object, is_gcp)"""
     from odc.geo.geobox import GeoBox
@@ -153,14 +166,7 @@ def mk_box(bc: dict):
         return GeoBox(shape, A, mk_crs_spec(bc["crs"])), False
     from odc.geo.gcp import GCPGeoBox, GCPMapping
 
-    ny, nx = shape
-    pix = _gcp_pixels(bc["pts"], ny, nx)
-    px, py = pix[:, 0], pix[:, 1]
-    s = max(abs(A.a), abs(A.b), abs(A.d), abs(A.e))
-    u, v = px / nx, py / ny
-    wx = A.a * px + A.b * py + A.c + s * nx * bc["q"][0] * u * v
-    wy = A.d * px + A.e * py + A.f + s * ny * bc["q"][1] * u * v
-    wld = np.stack([wx, wy], axis=1)
+    pix, wld = _gcp_points(bc)
     g = GCPGeoBox(shape, GCPMapping(pix, wld, mk_crs_spec(bc["crs"])))
     if bc.get("crop"):
         y0, y1, x0, x1 = bc["crop"]
@@ -292,10 +298,10 @@ def _gcp_fields(g) -> List[Tuple[float, float, float, float]]:
     return [(float(p.row), float(p.col), float(p.x), float(p.y)) for p in g.gcps()]
 
 
-def _gcp_tol(G, bc) -> float:
+def _gcp_tol(bc) -> float:
     A = mk_affine(bc["affine"])
     px = min(math.hypot(A.a, A.d), math.hypot(A.b, A.e))
-    wmax = float(np.abs(G._mapping._wld).max())  # the control points the oracle itself supplied
+    wmax = float(np.abs(_gcp_points(bc)[1]).max())
     return 1e-6 * px + 1e-10 * wmax
 
 
@@ -437,7 +443,7 @@ def o_roundtrip(case, T):
 
                 require(isinstance(R, GCPGeoBox), "%s: GCP box came back as %s", vname, type(R).__name__)
                 require(_gcp_fields(R) == _gcp_fields(G), "%s: control points differ: got %r.. want %r..", vname, _gcp_fields(R)[:2], _gcp_fields(G)[:2])
-                msg = gcp_points_diff(R, G, list(range(ny)), list(range(nx)), _gcp_tol(G, bc))
+                msg = gcp_points_diff(R, G, list(range(ny)), list(range(nx)), _gcp_tol(bc))
                 require(msg is None, "%s: %s", vname, msg)
             else:
                 from odc.geo.geobox import GeoBox
@@ -631,7 +637,7 @@ def _check_state(cur, bc, G, is_gcp, idx, names, step_no: int, opdesc: str, T) -
         from odc.geo.gcp import GCPGeoBox
 
         require(isinstance(R, GCPGeoBox), "%s: GCP box came back as %s", where, type(R).__name__)
-        msg = gcp_points_diff(R, G, iy, ix, _gcp_tol(G, bc))
+        msg = gcp_points_diff(R, G, iy, ix, _gcp_tol(bc))
         require(msg is None, "%s: %s", where, msg)
         ly = np.asarray(cur.coords[want_sd[0]].values, dtype="float64")
         lx = np.asarray(cur.coords[want_sd[1]].values, dtype="float64")
@@ -1037,8 +1043,8 @@ def o_reproject(case, T):
 
 # ============================================================================ registry
 def build(chk: Check) -> None:
-    chk.sub("roundtrip", o_roundtrip, strategy=s_roundtrip(gcp=False), n={"quick": 5000, "thorough": 300000}, budget_s={"quick": 40, "thorough": 600})
-    chk.sub("roundtrip_gcp", o_roundtrip, strategy=s_roundtrip(gcp=True), n={"quick": 1200, "thorough": 60000}, budget_s={"quick": 30, "thorough": 400})
-    chk.sub("history", o_history, strategy=s_history(gcp=False), n={"quick": 2400, "thorough": 150000}, budget_s={"quick": 50, "thorough": 800})
-    chk.sub("history_gcp", o_history, strategy=s_history(gcp=True), n={"quick": 700, "thorough": 40000}, budget_s={"quick": 30, "thorough": 500})
-    chk.sub("reproject", o_reproject, strategy=s_reproject(), n={"quick": 400, "thorough": 16000}, budget_s={"quick": 50, "thorough": 800}, shrink=False)
+    chk.sub("roundtrip", o_roundtrip, strategy=s_roundtrip(gcp=False), n={"quick": 4000, "thorough": 600000}, budget_s={"quick": 40, "thorough": 180})
+    chk.sub("roundtrip_gcp", o_roundtrip, strategy=s_roundtrip(gcp=True), n={"quick": 1200, "thorough": 150000}, budget_s={"quick": 30, "thorough": 90})
+    chk.sub("history", o_history, strategy=s_history(gcp=False), n={"quick": 2400, "thorough": 500000}, budget_s={"quick": 50, "thorough": 240})
+    chk.sub("history_gcp", o_history, strategy=s_history(gcp=True), n={"quick": 700, "thorough": 150000}, budget_s={"quick": 30, "thorough": 120})
+    chk.sub("reproject", o_reproject, strategy=s_reproject(), n={"quick": 360, "thorough": 60000}, budget_s={"quick": 50, "thorough": 200}, shrink=False)
